@@ -360,8 +360,7 @@ def drain(F, R):
         R.ob('C07.drain', '%s|clear_queues|parked-parties-are-dropped-not-woken' % ver, not oks,
              'clear_queues wakes a parked sender / payload stream with a success signal instead of dropping it: the parked operation resumes as if the connection were alive (writes into the closed io, reports Ok) instead of failing with Disconnected', cq.loc(oks[0][0]) if oks else None)
         # every path clears inflight: returns not reachable avoiding the clear/drain blocks
-        blocks = {x[0] for x in i1}
-        R.ob('C07.drain', '%s|clear_queues|inflight cleared on all paths' % ver, bool(blocks) and not (set(cq.returns()) & cq.reachable(0, avoid=blocks)), 'a path through clear_queues keeps outstanding reply channels alive')
+        R.ob('C07.drain', '%s|clear_queues|inflight cleared on all paths' % ver, emptied_before_returns(cq, 'inflight')[0], 'a path through clear_queues keeps outstanding reply channels alive')
         for fn in ('close', 'force_close', 'drop_sink'):
             b = F.body('%s::shared::MqttShared::%s' % (ver, fn))
             if b is None:
